@@ -32,7 +32,7 @@ From PydapV Require Import Tree TreeProofs.
    ids_okb: every visible child's id is its parent's id followed by its own name (its name alone
             directly below the dataset), recursively.
    For EVERY history of operations (no length bound) over {set fresh variable, insert a copy,
-   delete, copy, select-by-tuple, set attribute, assign data} on any number of handles, starting
+   delete, copy, select-by-tuple, set attribute, assign data, move a whole object into another tree} on any number of handles, starting
    from handles that satisfy the invariant, every handle satisfies it afterwards. *)
 Theorem C12_tree_invariant : forall ops st, Forall Inv st -> Forall Inv (run st ops).
 Proof. exact run_inv. Qed.
@@ -48,7 +48,7 @@ Print Assumptions C12_id_lookup.
 
 (* Separation: an operation changes at most the handle it edits (copy / select only add a handle). *)
 Theorem C12_separation : forall st o j r,
-  nth_error st j = Some r -> op_target o <> Some j -> nth_error (step st o) j = Some r.
+  nth_error st j = Some r -> ~ In j (op_targets o) -> nth_error (step st o) j = Some r.
 Proof. exact step_separation. Qed.
 Print Assumptions C12_separation.
 
